@@ -608,7 +608,7 @@ func c33PartC(e *c33Env, full bool) {
 	caps := map[int]int{1: 3, 2: 6, 3: 3, 4: 2}
 	typedMax := 2
 	if full {
-		caps = map[int]int{1: 3, 2: 6, 3: 5, 4: 3}
+		caps = map[int]int{1: 3, 2: 6, 3: 4, 4: 2} // and 4 instructions / 3 slots on v13 (varint sizing), below
 		typedMax = 3
 	}
 	quickLen4 := map[uint64]bool{8: true, 13: true}
@@ -641,7 +641,11 @@ func c33PartC(e *c33Env, full bool) {
 					shape[i] = avail[x]
 					slots += c33BrAlphabet[avail[x]].slots
 				}
-				if slots == 0 || slots > caps[n] {
+				limit := caps[n]
+				if full && n == 4 && v == varintBranchVersion {
+					limit = 3
+				}
+				if slots == 0 || slots > limit {
 					return
 				}
 				items = append(items, item{v, shape})
@@ -935,13 +939,13 @@ func TestVerif_C33(t *testing.T) {
 		// covers everything the quick tier covers
 		r.Note("B(quick) took %.1fs", time.Since(t0).Seconds())
 		t0 = time.Now()
-		c33PartC(e, true)
-		r.Note("C(thorough caps) took %.1fs", time.Since(t0).Seconds())
+		c33PartB(e, true)
+		r.Note("B(full) took %.1fs", time.Since(t0).Seconds())
 		t0 = time.Now()
 		if !r.OutOfTime() {
-			c33PartB(e, true)
+			c33PartC(e, true)
 		}
-		r.Note("B(full) took %.1fs", time.Since(t0).Seconds())
+		r.Note("C(thorough caps) took %.1fs", time.Since(t0).Seconds())
 		// all 3-byte bytecodes (2^24 x 15 versions, ~4% of them accepted and round-tripped) do not fit
 		// the thorough budget on 16 cores; they come last and use whatever budget is left (versions
 		// interleaved, so a capped run has touched every version).
@@ -978,8 +982,8 @@ func TestVerif_C33(t *testing.T) {
 		Rule: "A: every OpSpec x every immediate combination of the boundary sets / every field name, all versions, typed and untyped setting; " +
 			"B: all ordered pairs of opcode forms (2 forms per opcode; quick: 1 form, versions 1,3,4,8,13,14); " +
 			"C: all programs <= 4 instructions over the 14-element branch alphabet x every label placement within the slot caps " +
-			"(quick: n<=2 all, n=3 <=3 slots, n=4 <=2 slots on v8,13; thorough: n=3 <=5, n=4 <=3 slots, all versions); " +
-			"D: every byte string of length <= 2 (quick) / <= 3 (thorough) per version",
+			"(quick: n<=2 all, n=3 <=3 slots, n=4 <=2 slots on v8,13; thorough: n=3 <=4, n=4 <=2 slots on all versions, n=4 <=3 slots on v13); " +
+			"D: every byte string of length <= 2 per version; thorough additionally length 3 as far as the budget allows (last, versions interleaved)",
 		Exhaustive: true,
 	})
 	if len(never) > 0 {
